@@ -1018,3 +1018,92 @@ def recursive_components(prog, scope):
         if k not in index:
             sc(k)
     return comps
+
+
+# ---------------------------------------------------------------------------------------------------------------------
+# upper bound of the length of a Vec<u8> local at a use site (straight-line idioms: with_capacity / read_to_end(take(K)) /
+# resize / truncate / clear / move into another local)
+
+VEC_NEUTRAL = {'as_mut_slice', 'as_slice', 'deref_mut', 'deref', 'index_mut', 'index', 'len', 'is_empty', 'as_mut_ptr', 'as_ptr',
+               'as_mut', 'as_ref', 'borrow_mut', 'borrow', 'capacity', 'reserve', 'reserve_exact', 'fill', 'iter_mut', 'iter', 'get_mut', 'get'}
+
+
+def vec_len_ub(prog, body, local, use_bb):
+    """(ub, why) with ub an int or None when no bound can be established"""
+    from .core import unique_def, mutarg_defs, origins
+    chain = [local]
+    creation = None
+    def whole_def(l):
+        # the single whole-local assignment (the vector is borrowed mutably by the very operations modelled below, so unique_def refuses it)
+        ds = [d for d in body.defs.get(l, []) if not (d[2] == 'assign' and d[3].place[1])]
+        return ds[0] if len(ds) == 1 else None
+    for _ in range(6):
+        d = whole_def(chain[-1])
+        if d is None:
+            return None, 'no unique definition of the vector'
+        if d[2] == 'call':
+            creation = d
+            break
+        if d[2] == 'assign' and d[3].rv.r == 'use' and d[3].rv.ops[0].place is not None and not d[3].rv.ops[0].place[1]:
+            chain.append(d[3].rv.ops[0].place[0])
+            continue
+        return None, 'vector defined by %s' % d[2]
+    if creation is None:
+        return None, 'definition chain too long'
+    ct = creation[3]
+    if ct.cmethod not in ('with_capacity', 'new') or 'Vec' not in cnorm_(ct):
+        return None, 'vector created by %s' % (ct.cmethod or '?')
+    ub = 0
+    loops = body.loop_blocks()
+    ops = []
+    md = mutarg_defs(body)
+    for l in chain:
+        for ent in md.get(l, []):
+            bb, t = ent[0], ent[1]
+            if bb == creation[0]:
+                continue
+            ops.append((bb, t))
+    dom_ops = sorted([(bb, t) for bb, t in ops if body.dominates(bb, use_bb)], key=lambda x: len(body.doms.get(x[0], ())))
+    other = [(bb, t) for bb, t in ops if not body.dominates(bb, use_bb) and use_bb in body.reachable(bb)]
+    why = []
+    for bb, t in dom_ops + other:
+        m = t.cmethod
+        dominating = (bb, t) in dom_ops
+        if m in VEC_NEUTRAL or (t.arg_tys and not any(a.startswith('&mut std::vec::Vec<') for a in t.arg_tys) and m not in ('read_to_end', 'copy')):
+            continue   # the callee sees a slice (or a shared reference): the length cannot change
+        if m in ('clear',):
+            if dominating:
+                ub = 0
+            continue
+        if m == 'truncate':
+            if dominating:
+                iv = refined_interval(prog, body, bb, t.args[1])
+                if iv is not None:
+                    ub = min(ub, iv[1])
+                    why.append('truncate(<=%d)' % iv[1])
+            continue
+        if m == 'resize':
+            iv = refined_interval(prog, body, bb, t.args[1])
+            if not dominating or iv is None or bb in loops:
+                return None, 'resize to an unbounded / conditional length'
+            ub = iv[1]
+            why.append('resize(<=%d)' % iv[1])
+            continue
+        if m == 'read_to_end' and t.ctrait == 'std::io::Read':
+            ro = origins(body, [t.args[0].place[0]])
+            tk = [body.blocks[c].term for c in ro.calls if body.blocks[c].term.cmethod == 'take' and body.blocks[c].term.ctrait == 'std::io::Read']
+            if len(tk) != 1 or bb in loops:
+                return None, 'read_to_end not through a single take()'
+            iv = refined_interval(prog, body, bb, tk[0].args[1])
+            if iv is None:
+                return None, 'take() limit unbounded'
+            ub += iv[1]
+            why.append('read_to_end(take(<=%d))' % iv[1])
+            continue
+        return None, 'length changed by %s' % (m or '?')
+    return ub, ', '.join(why)
+
+
+def cnorm_(t):
+    from .core import cnorm
+    return cnorm(t)
